@@ -469,7 +469,7 @@ class Summaries:
                     ctx.env = dict(ctx.env)
                     ctx.env[k_] = v_ if (cond is TRUE or old_ is None) else ite(cond, v_, old_)
             return r_[0]
-        m_ = re.match(r"core::(option::Option::<T>|result::Result::<T, E>)::(\w+)$", tp)
+        m_ = re.match(r"core::(option::Option::<.*>|result::Result::<.*>)::(\w+)$", tp)
         if m_:
             is_opt = m_.group(1).startswith("option")
             okv, errv = ("Some", "None") if is_opt else ("Ok", "Err")
